@@ -515,4 +515,203 @@ theorem c01e_decrypt_of_phase {l : Level} (hl : l.WF) (hd : DecOK l) {sk : Array
   rw [c01p_bfvDecode_getD _ _ _ (by rw [c01p_phase2_size]; exact hc), (hdec c hc).1]
   simp [padPlain, Array.getD, hc]
 
+/-! ## Property theorems: fresh BFV encryptions of the model decrypt (model decryption) to the plaintext -/
+
+theorem c01e_zero_internal_asym (l : Level) (hb : l.scheme = .bfv) (pk : Array RnsPoly) (u : RnsPoly) (es : Array RnsPoly) :
+    encryptZeroInternal l (.asym none pk u es) = encryptZeroAsym l pk u es false := by
+  unfold encryptZeroInternal; rw [hb]; rfl
+
+theorem c01e_zero_internal_sym (l : Level) (hb : l.scheme = .bfv) (sk : Array Int) (a e : RnsPoly) (sv : Bool) :
+    encryptZeroInternal l (.sym sk a e sv) = encryptZeroSym l sk a e false sv := by
+  unfold encryptZeroInternal; rw [hb]; rfl
+
+/-- (a) PHASE of the model's fresh public-key ciphertext (BFV level without a previous level): `encryptZeroAsym` succeeds and the
+    exact phase of (c0, c1) is −e·u + e0 + e1·s modulo Q, e = the public key's error, (u, e0, e1) the drawn polynomials -/
+theorem encryptZeroAsym_phase {l : Level} (hl : l.WF) (hq : c07s_LevelQ l) (hs : l.scheme ≠ .bgv) {sk : Array Int}
+    {pk0 pk1 : RnsPoly} {E : Nat → Int} (hpk : PkRel l sk E pk0 pk1)
+    {u e0 e1 : Array Int} (hus : u.size = l.n) (he0s : e0.size = l.n) (he1s : e1.size = l.n) :
+    ∃ c0 c1, encryptZeroAsym l #[pk0, pk1] (rnsOfInt l u) #[rnsOfInt l e0, rnsOfInt l e1] false = .ok ⟨#[c0, c1], false, 1⟩ ∧
+      RnsCanon l c0 ∧ RnsCanon l c1 ∧
+      (∀ i, i < l.size → ∀ c, c < l.n → (c0.getD i #[]).getD c 0 =
+        (negMulNat l.n (l.q i).value (intt (l.tbl i) (pk0.getD i #[])) ((rnsOfInt l u).getD i #[]) c
+          + ((rnsOfInt l e0).getD i #[]).getD c 0) % (l.q i).value) ∧
+      (∀ i, i < l.size → ∀ c, c < l.n → (c1.getD i #[]).getD c 0 =
+        (negMulNat l.n (l.q i).value (intt (l.tbl i) (pk1.getD i #[])) ((rnsOfInt l u).getD i #[]) c
+          + ((rnsOfInt l e1).getD i #[]).getD c 0) % (l.q i).value) ∧
+      ∀ c, c < l.n → (Spec.phase (c01p_qvals l) l.n sk [c0, c1]).getD c 0 ≡
+        0 - negMulR l.n E (fun p => u.getD p 0) c + e0.getD c 0 + negMulR l.n (fun p => e1.getD p 0) (fun p => sk.getD p 0) c
+        [ZMOD (Spec.prodL (c01p_qvals l) : Int)] := by
+  have hq0 : ∀ i, i < l.size → 0 < (l.q i).value := fun i hi => by have := (c01o_level_comp hl hi).2.2.2.two_le; omega
+  obtain ⟨z, hz, hzn, hzcf, hzs, hzv⟩ := encryptZeroAsym_coeff hl hs (pk := #[pk0, pk1]) (u := rnsOfInt l u)
+    (es := #[rnsOfInt l e0, rnsOfInt l e1]) (c01e_rnsOfInt_canon hl hus)
+    (fun k hk => by
+      have hk' : k < 2 := hk
+      interval_cases k
+      · exact hpk.1
+      · exact hpk.2.1)
+    (fun k hk => by
+      have hk' : k < 2 := hk
+      interval_cases k
+      · exact c01e_rnsOfInt_canon hl he0s
+      · exact c01e_rnsOfInt_canon hl he1s)
+  obtain ⟨polys, zn, zcf⟩ := z
+  simp only at hzn hzcf hzs hzv
+  subst hzn hzcf
+  have h2 : polys.size = 2 := hzs
+  obtain ⟨hC0, hv0⟩ := hzv 0 (by simp)
+  obtain ⟨hC1, hv1⟩ := hzv 1 (by simp)
+  have hv0' : ∀ i, i < l.size → ∀ c, c < l.n → ((polys.getD 0 #[]).getD i #[]).getD c 0 =
+      (negMulNat l.n (l.q i).value (intt (l.tbl i) (pk0.getD i #[])) ((rnsOfInt l u).getD i #[]) c
+        + ((rnsOfInt l e0).getD i #[]).getD c 0) % (l.q i).value := hv0
+  have hv1' : ∀ i, i < l.size → ∀ c, c < l.n → ((polys.getD 1 #[]).getD i #[]).getD c 0 =
+      (negMulNat l.n (l.q i).value (intt (l.tbl i) (pk1.getD i #[])) ((rnsOfInt l u).getD i #[]) c
+        + ((rnsOfInt l e1).getD i #[]).getD c 0) % (l.q i).value := hv1
+  refine ⟨polys.getD 0 #[], polys.getD 1 #[], by rw [hz, ← c01e_array2 polys h2 #[]], hC0, hC1, hv0', hv1', ?_⟩
+  apply c01e_phase_pk hl hq hpk (U := fun p => u.getD p 0) (E0 := fun p => e0.getD p 0) (E1 := fun p => e1.getD p 0)
+    (M := fun _ => 0) (u := rnsOfInt l u) (fun i hi p _ => c01e_rnsOfInt_modEq u hi (hq0 i hi) p) hC0.1 hC1.1
+  · intro i hi c hc
+    rw [hv0' i hi c hc]
+    refine (cast_mod_modEq _ _).trans ?_
+    push_cast
+    rw [add_zero]
+    exact Int.ModEq.add (Int.ModEq.refl _) (c01e_rnsOfInt_modEq e0 hi (hq0 i hi) c)
+  · intro i hi c hc
+    rw [hv1' i hi c hc]
+    refine (cast_mod_modEq _ _).trans ?_
+    push_cast
+    exact Int.ModEq.add (Int.ModEq.refl _) (c01e_rnsOfInt_modEq e1 hi (hq0 i hi) c)
+
+/-- (b) END TO END, BFV, PUBLIC KEY (level without a previous level): for every well-formed level with decryption constants
+    (`DecOK`, derived from the constructors in C01P/C01Q), scaling constants (`ScalingOK`), a public key that is an encryption of
+    zero with error ‖E‖ ≤ 21 (`PkRel`), ternary s and u, errors bounded by 21, every plaintext with coefficients < t, under the
+    decidable margin `FreshEncOK l (21(2N+1))`: encryption succeeds and the model's decryption returns the plaintext -/
+theorem bfv_encrypt_decrypt_pk {l : Level} (hl : l.WF) (hd : DecOK l) (hb : l.scheme = .bfv) {cdp : Array MulOperand}
+    (hsc : ScalingOK l (Spec.prodL (c01p_qvals l)) cdp)
+    {sk : Array Int} (hsk : sk.size = l.n) (hs1 : ∀ p, p < l.n → (sk.getD p 0).natAbs ≤ 1)
+    {pk0 pk1 : RnsPoly} {E : Nat → Int} (hpk : PkRel l sk E pk0 pk1) (hE : ∀ p, p < l.n → (E p).natAbs ≤ 21)
+    {u e0 e1 : Array Int} (hus : u.size = l.n) (he0s : e0.size = l.n) (he1s : e1.size = l.n)
+    (hu1 : ∀ p, p < l.n → (u.getD p 0).natAbs ≤ 1) (he0 : ∀ p, p < l.n → (e0.getD p 0).natAbs ≤ 21)
+    (he1 : ∀ p, p < l.n → (e1.getD p 0).natAbs ≤ 21)
+    {plain : Poly} (hp : plain.size ≤ l.n) (hm : ∀ i, i < plain.size → plain.getD i 0 < l.t.value)
+    (hok : FreshEncOK l (21 * (2 * l.n + 1))) :
+    ∃ ct, bfvEncrypt l cdp (Spec.prodL (c01p_qvals l) % l.t.value) ((l.t.value + 1) / 2)
+        (.asym none #[pk0, pk1] (rnsOfInt l u) #[rnsOfInt l e0, rnsOfInt l e1]) plain = .ok ct ∧
+      bfvDecrypt l sk ct = .ok (trimPlain (padPlain l.n plain)) := by
+  have hq := c04r_levelQ_of_decOK hd
+  have hs : l.scheme ≠ .bgv := by rw [hb]; decide
+  have hq0 : ∀ i, i < l.size → 0 < (l.q i).value := fun i hi => by have := (c01o_level_comp hl hi).2.2.2.two_le; omega
+  obtain ⟨c0, c1, hz, hC0, hC1, hv0, hv1, -⟩ := encryptZeroAsym_phase hl hq hs hpk hus he0s he1s
+  obtain ⟨c0', hmul, hC0', hmv⟩ := multiplyAddPlain_spec hsc hp hm hC0
+  refine ⟨⟨#[c0', c1], false, 1⟩, ?_, ?_⟩
+  · unfold bfvEncrypt
+    rw [c01e_zero_internal_asym l hb, hz, ok_bind]
+    show (do let c0 ← multiplyAddPlain l cdp (Spec.prodL (c01p_qvals l) % l.t.value) ((l.t.value + 1) / 2) plain c0
+             pure (⟨(#[c0, c1] : Array RnsPoly).setIfInBounds 0 c0, false, 1⟩ : Ct)) = _
+    rw [hmul]; rfl
+  · apply c01e_decrypt_of_phase hl hd hsk hC0' hC1 hm
+      (v := fun c => - negMulR l.n E (fun p => u.getD p 0) c + e0.getD c 0
+        + negMulR l.n (fun p => e1.getD p 0) (fun p => sk.getD p 0) c)
+      (fresh_noise_bound l.n E (fun p => u.getD p 0) (fun p => e0.getD p 0) (fun p => e1.getD p 0) (fun p => sk.getD p 0)
+        hE he0 he1 hu1 hs1) hok
+    intro c hc
+    have h := c01e_phase_pk hl hq hpk (U := fun p => u.getD p 0) (E0 := fun p => e0.getD p 0) (E1 := fun p => e1.getD p 0)
+      (M := fun c => (deltaM (Spec.prodL (c01p_qvals l)) l.t.value (plain.getD c 0) : Int)) (u := rnsOfInt l u) (c0 := c0') (c1 := c1)
+      (fun i hi p _ => c01e_rnsOfInt_modEq u hi (hq0 i hi) p) hC0'.1 hC1.1
+      (fun i hi c hc => by
+        rw [hmv i hi c hc, hv0 i hi c hc]
+        refine (cast_mod_modEq _ _).trans ?_
+        push_cast
+        refine Int.ModEq.add ((cast_mod_modEq _ _).trans ?_) (Int.ModEq.refl _)
+        push_cast
+        exact Int.ModEq.add (Int.ModEq.refl _) (c01e_rnsOfInt_modEq e0 hi (hq0 i hi) c))
+      (fun i hi c hc => by
+        rw [hv1 i hi c hc]
+        refine (cast_mod_modEq _ _).trans ?_
+        push_cast
+        exact Int.ModEq.add (Int.ModEq.refl _) (c01e_rnsOfInt_modEq e1 hi (hq0 i hi) c)) c hc
+    have e : (deltaM (Spec.prodL (c01p_qvals l)) l.t.value (plain.getD c 0) : Int) - negMulR l.n E (fun p => u.getD p 0) c
+          + e0.getD c 0 + negMulR l.n (fun p => e1.getD p 0) (fun p => sk.getD p 0) c
+        = (deltaM (Spec.prodL (c01p_qvals l)) l.t.value (plain.getD c 0) : Int)
+          + (- negMulR l.n E (fun p => u.getD p 0) c + e0.getD c 0
+            + negMulR l.n (fun p => e1.getD p 0) (fun p => sk.getD p 0) c) := by ring
+    rw [e] at h
+    exact h
+
+/-- (a') PHASE of the model's fresh secret-key ciphertext (BFV, with or without a saved seed): Δ-free phase −e modulo Q -/
+theorem encryptZeroSym_phase {l : Level} (hl : l.WF) (hq : c07s_LevelQ l) (hs : l.scheme ≠ .bgv) {sk : Array Int}
+    (hsk : sk.size = l.n) {a : RnsPoly} (ha : RnsCanon l a) {e : Array Int} (hes : e.size = l.n) (saveSeed : Bool) :
+    ∃ c0 c1, encryptZeroSym l sk a (rnsOfInt l e) false saveSeed = .ok ⟨#[c0, c1], false, 1⟩ ∧ RnsCanon l c0 ∧ RnsCanon l c1 ∧
+      c1 = (if seedSaved l saveSeed then a else rnsIntt l a) ∧
+      (∀ i, i < l.size → ∀ c, c < l.n → (((c0.getD i #[]).getD c 0 : Nat) : Int) ≡
+        (-1 : Int) * ((negMulNat l.n (l.q i).value (c1.getD i #[]) (skRes l sk i) c : Int) + e.getD c 0)
+        [ZMOD ((l.q i).value : Int)]) ∧
+      ∀ c, c < l.n → (Spec.phase (c01p_qvals l) l.n sk [c0, c1]).getD c 0 ≡ 0 - e.getD c 0
+        [ZMOD (Spec.prodL (c01p_qvals l) : Int)] := by
+  have hq0 : ∀ i, i < l.size → 0 < (l.q i).value := fun i hi => by have := (c01o_level_comp hl hi).2.2.2.two_le; omega
+  obtain ⟨c0, c1, hz, hC0, hC1, hc1, hv⟩ := encryptZeroSym_coeff hl hs hsk ha (c01e_rnsOfInt_canon hl hes) saveSeed
+  have hcong : ∀ i, i < l.size → ∀ c, c < l.n → (((c0.getD i #[]).getD c 0 : Nat) : Int) ≡
+      (-1 : Int) * ((negMulNat l.n (l.q i).value (c1.getD i #[]) (skRes l sk i) c : Int) + e.getD c 0)
+      [ZMOD ((l.q i).value : Int)] := by
+    intro i hi c hc
+    rw [hv i hi c hc]
+    have hlt : (negMulNat l.n (l.q i).value (c1.getD i #[]) (skRes l sk i) c + ((rnsOfInt l e).getD i #[]).getD c 0) % (l.q i).value
+        ≤ (l.q i).value := Nat.le_of_lt (Nat.mod_lt _ (hq0 i hi))
+    refine (cast_mod_modEq _ _).trans ?_
+    rw [Nat.cast_sub hlt]
+    have h1 := cast_mod_modEq (negMulNat l.n (l.q i).value (c1.getD i #[]) (skRes l sk i) c + ((rnsOfInt l e).getD i #[]).getD c 0)
+      (l.q i).value
+    have h2 : (((l.q i).value : Nat) : Int) ≡ 0 [ZMOD ((l.q i).value : Int)] := by
+      apply Int.modEq_zero_iff_dvd.mpr; exact dvd_refl _
+    have h3 := (h2.sub h1)
+    refine h3.trans ?_
+    push_cast
+    have h4 := c01e_rnsOfInt_modEq e hi (hq0 i hi) c
+    have e' : (0 : Int) - ((negMulNat l.n (l.q i).value (c1.getD i #[]) (skRes l sk i) c : Int)
+        + (((rnsOfInt l e).getD i #[]).getD c 0 : Int))
+        = (-1 : Int) * ((negMulNat l.n (l.q i).value (c1.getD i #[]) (skRes l sk i) c : Int)
+          + (((rnsOfInt l e).getD i #[]).getD c 0 : Int)) := by ring
+    rw [e']
+    exact Int.ModEq.mul (Int.ModEq.refl _) (Int.ModEq.add (Int.ModEq.refl _) h4)
+  refine ⟨c0, c1, hz, hC0, hC1, hc1, hcong, ?_⟩
+  apply c01e_phase_sk hl hq (E := fun c => e.getD c 0) (M := fun _ => 0) hC0.1 hC1.1
+  intro i hi c hc
+  rw [add_zero]
+  exact hcong i hi c hc
+
+/-- (b') END TO END, BFV, SECRET KEY (any level; `saveSeed` = the seed-compressed variant, c1 being what `expand_seed`
+    regenerates): every mask polynomial `a`, error bounded by B, plaintext coefficients < t, margin `FreshEncOK l B` -/
+theorem bfv_encrypt_decrypt_sk {l : Level} (hl : l.WF) (hd : DecOK l) (hb : l.scheme = .bfv) {cdp : Array MulOperand}
+    (hsc : ScalingOK l (Spec.prodL (c01p_qvals l)) cdp)
+    {sk : Array Int} (hsk : sk.size = l.n) {a : RnsPoly} (ha : RnsCanon l a)
+    {e : Array Int} (hes : e.size = l.n) {B : Nat} (he : ∀ p, p < l.n → (e.getD p 0).natAbs ≤ B) (saveSeed : Bool)
+    {plain : Poly} (hp : plain.size ≤ l.n) (hm : ∀ i, i < plain.size → plain.getD i 0 < l.t.value)
+    (hok : FreshEncOK l B) :
+    ∃ ct, bfvEncrypt l cdp (Spec.prodL (c01p_qvals l) % l.t.value) ((l.t.value + 1) / 2)
+        (.sym sk a (rnsOfInt l e) saveSeed) plain = .ok ct ∧
+      bfvDecrypt l sk ct = .ok (trimPlain (padPlain l.n plain)) := by
+  have hq := c04r_levelQ_of_decOK hd
+  have hs : l.scheme ≠ .bgv := by rw [hb]; decide
+  obtain ⟨c0, c1, hz, hC0, hC1, -, hcong, -⟩ := encryptZeroSym_phase hl hq hs hsk ha hes saveSeed
+  obtain ⟨c0', hmul, hC0', hmv⟩ := multiplyAddPlain_spec hsc hp hm hC0
+  refine ⟨⟨#[c0', c1], false, 1⟩, ?_, ?_⟩
+  · unfold bfvEncrypt
+    rw [c01e_zero_internal_sym l hb, hz, ok_bind]
+    show (do let c0 ← multiplyAddPlain l cdp (Spec.prodL (c01p_qvals l) % l.t.value) ((l.t.value + 1) / 2) plain c0
+             pure (⟨(#[c0, c1] : Array RnsPoly).setIfInBounds 0 c0, false, 1⟩ : Ct)) = _
+    rw [hmul]; rfl
+  · apply c01e_decrypt_of_phase hl hd hsk hC0' hC1 hm (v := fun c => - e.getD c 0)
+      (fun c hc => by rw [Int.natAbs_neg]; exact he c hc) hok
+    intro c hc
+    have h := c01e_phase_sk hl hq (E := fun c => e.getD c 0)
+      (M := fun c => (deltaM (Spec.prodL (c01p_qvals l)) l.t.value (plain.getD c 0) : Int)) hC0'.1 hC1.1
+      (fun i hi c hc => by
+        rw [hmv i hi c hc]
+        refine (cast_mod_modEq _ _).trans ?_
+        push_cast
+        exact Int.ModEq.add (hcong i hi c hc) (Int.ModEq.refl _)) c hc
+    have e' : (deltaM (Spec.prodL (c01p_qvals l)) l.t.value (plain.getD c 0) : Int) - e.getD c 0
+        = (deltaM (Spec.prodL (c01p_qvals l)) l.t.value (plain.getD c 0) : Int) + - e.getD c 0 := by ring
+    rw [e'] at h
+    exact h
+
 end HC
